@@ -185,10 +185,18 @@ class TextContent(BaseModel):
         converted_text = ""
         for char in text:
             unicode_int = ord(char)
-            if unicode_int <= 255 and unicode_int != 177:
+            if unicode_int < 128:
                 converted_text += char
+                continue
+            # The file is 7-bit clean under \ansi: everything else is written
+            # as \uN escapes of its UTF-16 code units (signed 16-bit values).
+            if unicode_int > 0xFFFF:
+                offset = unicode_int - 0x10000
+                code_units = [0xD800 + (offset >> 10), 0xDC00 + (offset & 0x3FF)]
             else:
-                rtf_value = unicode_int - (0 if unicode_int < 32768 else 65536)
+                code_units = [unicode_int]
+            for unit in code_units:
+                rtf_value = unit - (0 if unit < 32768 else 65536)
                 converted_text += f"\\uc1\\u{rtf_value}*"
 
         text = converted_text
